@@ -5,6 +5,7 @@ import (
 	"time"
 
 	"github.com/jrhy/mast"
+	s3p "github.com/jrhy/mast/persist/s3"
 
 	"verif/internal/doubles"
 	"verif/internal/fw"
@@ -408,6 +409,44 @@ func runC03(c *fw.C) {
 		}
 		if fb.err != nil {
 			c.Violation("C03.panic", ctx, "MakeRoot into the second store failed: %v", fb.err)
+		}
+		// the same with the real S3 backend: one bucket, two key prefixes, one cache
+		fake := &s3Fake{objects: map[string][]byte{}}
+		bucket := "shared-bucket"
+		var roots [2]*mast.Root
+		prefixes := [2]string{"tenant-a/", "tenant-b/"}
+		for i, pf := range prefixes {
+			sp := s3p.NewPersist(fake, "http://s3.invalid", bucket, pf)
+			se := *tr.e
+			se.Persist = &sp
+			t, err := newSide(&se)
+			if err == nil {
+				for j := range tr.s.M.Keys {
+					if err = t.ins(&se, tr.s.M.Keys[j], tr.s.M.Vals[j]); err != nil {
+						break
+					}
+				}
+			}
+			if err == nil {
+				roots[i], err = t.T.MakeRoot(se.Ctx)
+			}
+			if err != nil {
+				c.Obs("build_failed", 1)
+				return
+			}
+		}
+		c.Obs("s3_two_prefix_flushes", 1)
+		if roots[1].Link != nil {
+			get := func(n string) ([]byte, bool) {
+				fake.mu.Lock()
+				defer fake.mu.Unlock()
+				b, ok := fake.objects[bucket+"\x00"+prefixes[1]+n]
+				return b, ok
+			}
+			if err := ref.Reach(get, cfg.Format, *roots[1].Link, map[string]bool{}); err != nil {
+				c.Violation("C03.not_skipped_because_cached_elsewhere", map[string]string{"policy": policy, "flush": "s3_second_prefix", "cache": cfg.Cache},
+					"two S3 stores (same bucket, prefixes %q and %q) share one node cache; after persisting the same contents into both, under the second prefix %v", prefixes[0], prefixes[1], err)
+			}
 		}
 	}
 }
